@@ -811,7 +811,17 @@ class DestHandler:
                     # has to be continued for the remaining missing file data.
                     self.states.step = TransactionStep.WAITING_FOR_MISSING_DATA
         elif packet_holder.pdu_directive_type == DirectiveType.EOF_PDU:  # type: ignore
-            self._handle_eof_without_previous_metadata(packet_holder.to_eof_pdu())
+            eof_pdu = packet_holder.to_eof_pdu()
+            if (
+                self._params.acked_params.deferred_lost_segment_detection_active
+                and eof_pdu.condition_code == ConditionCode.NO_ERROR
+            ):
+                # A re-sent EOF PDU means that the sender did not receive the previous ACK PDU.
+                # It is acknowledged again, but it is no progress for the running lost segment
+                # procedure and the EOF-Recv indication was already issued.
+                self._prepare_eof_ack_packet()
+                return
+            self._handle_eof_without_previous_metadata(eof_pdu)
             if self._params.acked_params.deferred_lost_segment_detection_active:
                 self._reset_nak_activity_parameters()
 
